@@ -128,7 +128,7 @@ func ruleC18Index(cx *Ctx) {
 	// incrementAt interprets its second argument as nibble index: shift = j << 2 (checked in C18.sat) and addresses table[i]
 	ok := false
 	allInstrs(incAt, func(in ssa.Instruction) {
-		if ia, isIA := in.(*ssa.IndexAddr); isIA && sameField(fieldOf(ia.X), tableF) && ia.Index == ssa.Value(incAt.Params[1]) {
+		if ia, isIA := in.(*ssa.IndexAddr); isIA && sameField(fieldOf(ia.X), tableF) && ia.Index == ssa.Value(bparam(incAt, 1)) {
 			ok = true
 		}
 	})
@@ -232,7 +232,7 @@ func ruleC18Sat(cx *Ctx) {
 		shiftT := mk("<<", tVar("param2"), tConst(2))
 		wordT := mk("index", mk("field:table", tVar("param0")), tVar("param1"))
 		wantVal := mk("+", mk("<<", tConst(1), shiftT), wordT).String()
-		cx.R.Check(val == wantVal && ia.Index == ssa.Value(incAt.Params[1]), rule, name, "increment value", cx.P.where(st), "table[i] += 1 << (j<<2) (got "+val+")")
+		cx.R.Check(val == wantVal && ia.Index == ssa.Value(bparam(incAt, 1)), rule, name, "increment value", cx.P.where(st), "table[i] += 1 << (j<<2) (got "+val+")")
 		guarded := false
 		for _, g := range guardsAt(st.Block()) {
 			b, ok := g.Cond.(*ssa.BinOp)
@@ -460,10 +460,10 @@ func ruleC18Admit(cx *Ctx) {
 	allInstrs(fn, func(in ssa.Instruction) {
 		if c, ok := in.(*ssa.Call); ok && isCallTo(c, freq) {
 			a := callArgs(c)
-			if a[0] == ssa.Value(fn.Params[1]) {
+			if a[0] == ssa.Value(bparam(fn, 1)) {
 				candF = c
 			}
-			if a[0] == ssa.Value(fn.Params[2]) {
+			if a[0] == ssa.Value(bparam(fn, 2)) {
 				victF = c
 			}
 		}
@@ -540,7 +540,7 @@ func ruleC18Admit(cx *Ctx) {
 			victimRoot = c
 		}
 	})
-	candRoot := ssa.Value(efm.Params[1])
+	candRoot := ssa.Value(bparam(efm, 1))
 	sites := 0
 	allInstrs(efm, func(in ssa.Instruction) {
 		c, ok := in.(*ssa.Call)
@@ -566,7 +566,7 @@ func ruleC18Admit(cx *Ctx) {
 				blk := i.If.Block().Succs[side]
 				var evicted ssa.Value
 				for _, x := range blk.Instrs {
-					if cc := callCommon(x); cc != nil && !cc.IsInvoke() && cc.Value == ssa.Value(efm.Params[2]) {
+					if cc := callCommon(x); cc != nil && !cc.IsInvoke() && cc.Value == ssa.Value(bparam(efm, 2)) {
 						evicted = cc.Args[0]
 					}
 				}
